@@ -187,7 +187,7 @@ def signature(err, text, flags, model, fam):
             and re.search(r"T\d+<[^<>]*\b[AB]\b[^<>]*,[^<>]*\b(?:int|char|short|long|bool|float|double|unsigned long|long long|C\d+)\b[^<>]*>|"
                           r"T\d+<[^<>]*\b(?:int|char|short|long|bool|float|double|unsigned long|long long|C\d+)\b[^<>]*,[^<>]*\b[AB]\b[^<>]*>", text):
         return "c01.template-mixed-dependent-instantiation"
-    if fam == "cxx-classes" and set(codes) <= {"E0428", "E0592", "E0201"} and "E0428" in codes:      # (E0428: the extern fns themselves collide)
+    if fam == "cxx-classes" and set(codes) <= {"E0428", "E0592", "E0201", "E0308", "E0061", "E0034"} and "E0428" in codes:      # (E0428: the extern fns themselves collide)
         dup = set(re.findall(r"the name `(\w+)` is defined multiple times", err)) | set(re.findall(r"duplicate definitions with name `(\w+)`", err))
         # overload N of method `f` is named `fN`: it collides with a method that is really called `fN` (destruct / destruct1, new1 / new11, ...)
         digit_methods = set(re.findall(r"\b(\w*\D)(\d+)\(", text))
